@@ -83,7 +83,8 @@ pub fn run(args: &Args) {
 
     // ---- part 1: whole proofs ---------------------------------------------------------------------
     let corp = corpus();
-    let use_ids: Vec<u8> = if thorough { (0..corp.len() as u8).collect() } else { vec![0, 1, 2, 4, 7, 8] };
+    // the build with overflow checks and debug assertions runs a reduced corpus in the quick tier
+    let use_ids: Vec<u8> = if thorough { (0..corp.len() as u8).collect() } else if args.variant.starts_with("dbgrel") { vec![0, 2] } else { vec![0, 1, 2, 4, 7, 8] };
     let mut all: Vec<Mutant> = vec![];
     for e in corp.iter().filter(|e| use_ids.contains(&e.id)) {
         let bytes = honest_bytes(e);
